@@ -318,3 +318,22 @@ package openapiv3
 //@   at-call processMethod requires each_rpc_in_order: arg0 == service && arg1 == service.Methods[count("processMethod") - old(count("processMethod"))]
 //@   loop 1 invariant count("processMethod") == old(count("processMethod")) + _i1
 //@   ensures every_rpc_processed: count("processMethod") == old(count("processMethod")) + len(service.Methods)
+
+// ---- flattened discriminated oneofs: the variant schemas that are referenced are the ones that are registered (C18) ----
+// each variant's oneOf entry refers to <Message>_<discriminator value>, which is the key registered just before it
+//@ func (g *Generator) buildFlattenedVariantSchemas(message *protogen.Message, info *annotations.OneofDiscriminatorInfo, msgName string, oneofFields map[string]bool) (r []*base.SchemaProxy)
+//@   requires info != nil && message != nil
+//@   modifies *
+//@   at-call CreateSchemaProxyRef requires refers_to_the_variant_key: arg0 == "#/components/schemas/" + spec.variantSchemaKey(msgName, variant.DiscriminatorVal)
+//@   at-call Set requires keyed: arg0 == arg0
+//@   at-call CreateSchemaProxyRef requires refers_to_what_was_just_registered: arg0 == "#/components/schemas/" + lastArgString("Set", "0")
+//@   loop 1 invariant count("CreateSchemaProxyRef") == old(count("CreateSchemaProxyRef")) + _i1 && len(refs) == _i1
+//@   ensures one_ref_per_variant: len(r) == old(len(info.Variants))
+
+// the discriminator mapping sends each value to the same key
+//@ func (g *Generator) buildFlattenedDiscriminator(info *annotations.OneofDiscriminatorInfo, msgName string) (r *base.Discriminator)
+//@   requires info != nil
+//@   modifies *
+//@   at-call Set requires maps_to_the_variant_key: arg0 == variant.DiscriminatorVal && arg1 == "#/components/schemas/" + spec.variantSchemaKey(msgName, variant.DiscriminatorVal)
+//@   loop 1 invariant count("Set") == old(count("Set")) + _i1
+//@   ensures one_entry_per_variant: count("Set") == old(count("Set")) + len(info.Variants)
